@@ -37,7 +37,10 @@ EXPLANATION = (
     "dominating test identified as '.'. (R6) all paths of breakLongStr (loops unrolled 0..2, callee maybeBreak inlined) emit an "
     "even, non-zero number of quote characters; the zero-iteration path must be excluded by an explicit empty-string test. "
     "(R7) operators routed to the parenthesis-eliding printer are associative. (R8) the scanner collapses '' to ' and the printer of string literals writes the pair back and prints only the escaped copy. (R9) every caller of ALGargs_out prints the parameter list under a test of the list. (R10) the group-break condition of ALGargs_out, evaluated for all combinations of previous/current values of the remembered properties (VAR-ness, type), is true exactly when one differs. Not decided: token-for-token equivalence, parenthesisation and precedence, wrapping at every line length, idempotence "
-    "— behaviour of the printer on values.")
+    "— behaviour of the printer on values."
+    " (R12) for every kind of literal, each member of the expression that the printer arm for that kind reads (u.integer, u.real, u.binary, u.logical, symbol.name) is stored by the grammar action of the corresponding `literal ::= TOK_.._LITERAL` production."
+    " (R13) the fixed word a printer emits for a built-in constant singleton (LITERAL_PI, LITERAL_E, LITERAL_INFINITY ..) is a spelling the lexer maps to the token of the `constant ::= TOK_x` production that yields that singleton."
+    " (R14) the arm of STMT_out for one kind of statement reads, of the statement node itself, only fields that STMTcreate or the constructor of that kind stores (symbol.name is stored by none).")
 from engines import call_args
 
 PLACEHOLDER_DEFAULT = re.compile(r"unknown|Reached default|not handled", re.I)
@@ -1210,6 +1213,266 @@ def r11_optional_parts_independent(prog, res):
     res.floor("R11.optional_parts_independent", "printed member paths guarded by a sibling's presence", nsib, 3)
 
 
+LITERAL_KIND = {"Type_Integer": "integer_", "Type_Real": "real_", "Type_Binary": "binary_", "Type_Logical": "logical_", "Type_Boolean": "boolean_",
+                "Type_String": "string_", "Type_String_Encoded": "string_"}
+
+
+def r12_literal_stored_where_read(prog, res, gr):
+    """The value of a literal is written by the grammar action that builds the expression (`A->u.integer = ..`, `A->symbol.name = ..`)
+    and read by the printer's arm for that kind of expression.  Writer and reader must agree on the member: every member of the
+    expression that the arm reads for a literal of kind K is one that the `literal ::= TOK_K_LITERAL` action stores.  The action for
+    binary literals stored the text in symbol.name while both exppp printers (and exp2python) read u.binary: `%1011` was printed as
+    `%(null)`."""
+    te = prog.enums.get("type_enum") or {}
+
+    def members(node, base_d):
+        """members of the expression `base` that node touches: u.<m> and symbol.name"""
+        out = set()
+        for y in walk(node):
+            if y["k"] != "Member":
+                continue
+            ap = access_path(y) or ""
+            parts = ap.split(".")
+            if parts[0] != base_d:
+                continue
+            if len(parts) == 3 and parts[1] == "u":
+                out.add("u." + parts[2])
+            if len(parts) == 3 and parts[1] == "symbol" and parts[2] == "name":
+                out.add("symbol.name")
+        return out
+    # writers
+    wr = {}
+    for n, stmt in gr.actions.items():
+        if stmt is None:
+            continue
+        lhs, rhs = gr.rule(n)
+        if lhs != "literal" or len(rhs) != 1 or not rhs[0].startswith("TOK_"):
+            continue
+        created = None
+        for a in walk(stmt):
+            if a["k"] == "Assign" and strip(a["ch"][1]) is not None and strip(a["ch"][1])["k"] == "Call" and strip(a["ch"][1]).get("fn") == "EXPcreate_simple":
+                t = [y.get("n") for y in walk(a["ch"][1]) if y["k"] == "Ref" and (y.get("n") or "").startswith("Type_")]
+                created = (access_path(a["ch"][0]), t[0] if t else None)
+        if created is None or created[1] not in LITERAL_KIND:
+            continue
+        base = created[0]
+        w = set()
+        for a in walk(stmt):
+            if a["k"] == "Assign":
+                ap = access_path(a["ch"][0]) or ""
+                if ap.startswith(base + ".u.") and ap.count(".") == base.count(".") + 2:
+                    w.add("u." + ap.rsplit(".", 1)[1])
+                if ap == base + ".symbol.name":
+                    w.add("symbol.name")
+        wr.setdefault(LITERAL_KIND[created[1]], {"tokens": [], "w": set(), "where": gr.fn.where(stmt)})
+        wr[LITERAL_KIND[created[1]]]["tokens"].append(rhs[0])
+        wr[LITERAL_KIND[created[1]]]["w"] |= w
+    n = 0
+    for fname in ("EXPR__out", "EXPRstring"):
+        f = next((x for x in prog.fn(fname) if x.component == "exppp"), None)
+        if f is None or not f.params:
+            res.broke("anchor vanished: exppp %s" % fname)
+            continue
+        sw = [x for x in f.walk() if x["k"] == "Switch"]
+        if not sw:
+            res.broke("R12: no switch over the expression kind in %s" % fname)
+            continue
+        items = flatten_switch(sw[0])
+        ed = f.params[0]["d"]
+        for kind, info in sorted(wr.items()):
+            val = te.get(kind)
+            idx = next((i for i, (labs, _) in enumerate(items) if val in labs), None)
+            if idx is None:
+                continue
+            reads = set()
+            for labs, st in items[idx:]:
+                if st is None:
+                    continue
+                if st["k"] == "Break":
+                    break
+                reads |= members(st, ed)
+                if any(y["k"] == "Break" for y in [st]):
+                    break
+            n += 1
+            miss = sorted(reads - info["w"] - {"symbol.name"} if "symbol.name" not in reads else reads - info["w"])
+            res.add("R12.literal_stored_where_read", "R12|%s|%s|%s" % (f.relfile(), fname, kind), f.where(items[idx][1]) if items[idx][1] else f.where(), not miss,
+                    "%s literals: the printer reads %s, all stored by the grammar action(s) for %s" % (kind, sorted(reads), info["tokens"]) if not miss else
+                    "%s literals: %s reads `e->%s`, but the grammar action for %s (%s) stores the value in %s: the printed literal is not the one "
+                    "in the source (a NULL string is printed as `(null)`)" % (kind, fname, miss[0].replace(".", "."), info["tokens"], info["where"], sorted(info["w"]) or "nothing"))
+    res.floor("R12.literal_stored_where_read", "(printer, literal kind) pairs", n, 8)
+
+
+def r13_constant_spelling(prog, res, gr):
+    """The built-in constants are singletons (LITERAL_PI, LITERAL_E, LITERAL_INFINITY ...) that the grammar yields for one keyword each
+    (`constant ::= TOK_E { A = LITERAL_E; }`).  Where a printer recognises such a singleton (`e == LITERAL_E`) and prints a fixed word
+    for it, that word must be the keyword the lexer maps to the token of that production: `CONST_E`, not `E` - `E` read back is a
+    reference to something called e."""
+    lex = lexer_map(prog, res)
+    if lex is None:
+        return
+    tok_of = {}
+    for n, stmt in gr.actions.items():
+        if stmt is None:
+            continue
+        lhs, rhs = gr.rule(n)
+        if len(rhs) != 1 or not rhs[0].startswith("TOK_"):
+            continue
+        for a in walk(stmt):
+            if a["k"] == "Assign":
+                r = strip(a["ch"][1])
+                while r is not None and r["k"] == "Cast" and r.get("ch"):
+                    r = strip(r["ch"][0])
+                if r is not None and r["k"] == "Ref" and (r.get("n") or "").startswith("LITERAL_"):
+                    tok_of[r["n"]] = rhs[0]
+    words = {}
+    for w, t in lex.items():
+        words.setdefault(t, set()).add(w)
+    n = 0
+    for f in prog.all_functions():
+        if f.component != "exppp":
+            continue
+        for x in f.walk():
+            if x["k"] != "If":
+                continue
+            c = strip(x["ch"][0])
+            if c is None or c["k"] != "Binary" or c.get("op") != "==":
+                continue
+            lit = next((strip(y) for y in c["ch"] if strip(y) is not None and strip(y)["k"] == "Ref" and (strip(y).get("n") or "").startswith("LITERAL_")), None)
+            if lit is None or lit["n"] not in tok_of:
+                continue
+            printed = [strip(call_args(y)[-1 if (y.get("fn") or "") in ("strcpy",) else 0]) for y in walk(x["ch"][1])
+                       if y["k"] == "Call" and (y.get("fn") or "") in ("wrap", "raw", "strcpy") and call_args(y)]
+            printed = [p_.get("s") for p_ in printed if p_ is not None and p_["k"] == "Str"]
+            if not printed:
+                continue
+            n += 1
+            want = words.get(tok_of[lit["n"]], set())
+            ok = printed[0].upper() in want
+            res.add("R13.constant_spelling_round_trip", "R13|%s|%s|%s" % (f.relfile(), f.name, lit["n"]), f.where(x), ok,
+                    "%s is printed as `%s`, the keyword the lexer reads as %s" % (lit["n"], printed[0], tok_of[lit["n"]]) if ok else
+                    "%s is printed as `%s`, but the lexer yields %s (the token of `constant ::= %s`) for %s: the printed schema refers to an "
+                    "identifier `%s` instead of the constant" % (lit["n"], printed[0], tok_of[lit["n"]], tok_of[lit["n"]], sorted(want), printed[0].lower()))
+    res.floor("R13.constant_spelling_round_trip", "built-in constants with a fixed spelling in exppp", n, 4)
+
+
+def r14_statement_fields_written(prog, res, gr):
+    """A printer arm for one kind of statement may read, of the statement node itself, only what the constructor of that kind stores:
+    each constructor (`ALIAScreate`, `LOOPcreate`, ...) calls STMTcreate( STMT_x ) and assigns `s->u.<x>->...`; STMTcreate sets the
+    symbol's line and file but no name.  `STMT_out` read `s->symbol.name` for ALIAS - a field nothing writes - and printed `(null)`.
+    Checked for the first two components below the node (`symbol.name`, `u.alias`, ...)."""
+    # the statement kinds are macros (STMT_ALIAS 0x80 ...): name and value are taken from the constructor calls
+    te = {}
+    for g in prog.all_functions():
+        if g.component == "express":
+            for c in g.calls("STMTcreate"):
+                a = strip(call_args(c)[0]) if call_args(c) else None
+                if a is not None and (a.get("m") or "").startswith("STMT_") and isinstance(a.get("val"), int):
+                    te[a["m"]] = a["val"]
+    f = next((x for x in prog.fn("STMT_out") if x.component == "exppp"), None)
+    if not te or f is None or not f.params:
+        res.broke("anchor vanished: STMT_out / STMTcreate( STMT_x ) calls")
+        return
+    # writers per kind
+    common = set()
+    g0 = prog.one("STMTcreate")
+    writers = {}
+    for g in prog.all_functions():
+        if g.component != "express":
+            continue
+        for c in g.calls("STMTcreate"):
+            a = strip(call_args(c)[0]) if call_args(c) else None
+            kind = a.get("m") if a is not None else None
+            if kind is None or kind not in te:
+                continue
+            par = g.parent.get(c["i"])
+            while par is not None and par["k"] in ("Cast", "Paren"):
+                par = g.parent.get(par["i"])
+            var = None
+            if par is not None and par["k"] == "Assign":
+                var = access_path(par["ch"][0])
+            elif par is not None and par["k"] == "Var":
+                var = par["d"]
+            if var is None:
+                continue
+            w = writers.setdefault(kind, set())
+            for x in g.walk():
+                if x["k"] == "Assign":
+                    ap = access_path(x["ch"][0]) or ""
+                    if ap.startswith(var + "."):
+                        parts = ap[len(var) + 1:].split(".")
+                        w.add(".".join(parts[:2]))
+    # ... and what the grammar action adds to the node it got from the constructor (`A = PCALLcreate(C); A->symbol = *(B);`)
+    ctor_kind = {}
+    for g in prog.all_functions():
+        if g.component == "express":
+            for c in g.calls("STMTcreate"):
+                a = strip(call_args(c)[0]) if call_args(c) else None
+                if a is not None and a.get("m") in te:
+                    ctor_kind[g.name] = a["m"]
+    for stmt in gr.actions.values():
+        if stmt is None:
+            continue
+        made = {}
+        for x in walk(stmt):
+            if x["k"] == "Assign":
+                r = strip(x["ch"][1])
+                while r is not None and r["k"] == "Cast" and r.get("ch"):
+                    r = strip(r["ch"][0])
+                if r is not None and r["k"] == "Call" and r.get("fn") in ctor_kind:
+                    made[access_path(x["ch"][0])] = ctor_kind[r["fn"]]
+        for x in walk(stmt):
+            if x["k"] == "Assign":
+                ap = access_path(x["ch"][0]) or ""
+                for var, kind in made.items():
+                    if var and ap.startswith(var + "."):
+                        parts = ap[len(var) + 1:].split(".")
+                        writers.setdefault(kind, set()).add(".".join(parts[:2]))
+                        if parts == ["symbol"]:
+                            writers[kind] |= {"symbol.name", "symbol.line", "symbol.filename"}
+    if g0 is not None:
+        for x in g0.walk():
+            if x["k"] == "Assign":
+                ap = access_path(x["ch"][0]) or ""
+                parts = ap.split(".")
+                if len(parts) >= 2 and parts[1] in ("type", "symbol", "u"):
+                    common.add(".".join(parts[1:3]))
+            # SYMBOLset( s ) stores line and file name, not a name
+        common |= {"symbol.line", "symbol.filename", "type"}
+    sw = [x for x in f.walk() if x["k"] == "Switch"]
+    if not sw:
+        res.broke("R14: no switch over the statement kind in STMT_out")
+        return
+    items = flatten_switch(sw[0])
+    sd = f.params[0]["d"]
+    n = 0
+    for kind, val in sorted(te.items()):
+        if kind not in writers:
+            continue
+        idx = next((i for i, (labs, _) in enumerate(items) if val in labs), None)
+        if idx is None:
+            continue
+        reads = {}
+        for labs, st in items[idx:]:
+            if st is None:
+                continue
+            if st["k"] == "Break":
+                break
+            for y in walk(st):
+                if y["k"] == "Member":
+                    ap = access_path(y) or ""
+                    if ap.startswith(sd + ".") and ap.count(".") >= 2:
+                        parts = ap[len(sd) + 1:].split(".")
+                        reads.setdefault(".".join(parts[:2]), y)
+        n += 1
+        w = writers[kind] | common
+        miss = sorted(r for r in reads if r not in w and r.split(".")[0] in ("symbol", "u"))
+        res.add("R14.statement_fields_written", "R14|src/exppp/pretty_stmt.c|STMT_out|%s" % kind, f.where(reads[miss[0]]) if miss else f.where(items[idx][1]), not miss,
+                "%s: the arm reads %s of the statement, all stored by its constructor" % (kind, sorted(reads)) if not miss else
+                "%s: the arm reads `s->%s`, which neither STMTcreate nor the constructor of this kind stores (they store %s): the printer "
+                "prints an unset field" % (kind, miss[0].replace(".", "."), sorted(writers[kind])))
+    res.floor("R14.statement_fields_written", "statement kinds with a constructor and a printer arm", n, 6)
+
+
 def run(prog, res, tier):
     gr = Grammar(prog, res)
     if not gr.ok:
@@ -1228,3 +1491,6 @@ def run(prog, res, tier):
     r9_parameter_list_guarded(prog, res)
     r10_group_key(prog, res)
     r11_optional_parts_independent(prog, res)
+    r12_literal_stored_where_read(prog, res, gr)
+    r13_constant_spelling(prog, res, gr)
+    r14_statement_fields_written(prog, res, gr)
